@@ -9,7 +9,7 @@ T = pg.typing
 MISSING = pg.MISSING_VALUE
 
 TIERS = {
-    'quick': dict(shards=8, cases=18, family=7, strangers=3, values=40, envelopes=1),
+    'quick': dict(shards=8, cases=18, family=7, strangers=3, values=40, envelopes=2),
     'thorough': dict(shards=16, cases=330, family=8, strangers=4, values=48, envelopes=2),
 }
 RULE = ('case = a pool of value specs: one generated spec (Bool/Int/Float/Str/Enum/List/'
@@ -23,12 +23,29 @@ RULE = ('case = a pool of value specs: one generated spec (Bool/Int/Float/Str/En
         'fields, B.is_compatible(C), C accepts its own default. Candidate values are derived '
         'from the parameters of both specs (each bound and +-1, each size +-1, enum members '
         'and a non-member, defaults, None, other types, partial / over-full dicts); '
-        'acceptance is always decided by the real apply on a deep copy. Non-trivial = at '
-        'least one non-identical compatible pair or successful extension whose containment '
-        'was evaluated on >= 1 accepted value; distinct by the rendered pool.')
+        'acceptance is always decided by the real apply on a deep copy. Histories: about half '
+        'of the pools carry idempotent, self-recording user transforms (identity, list/tuple/'
+        'dict conversion, sorting, a length validator) on List/Tuple/Dict/Object/Any nodes; a '
+        'child spec is, at random, used (applied, rendered, compared) before it is extended, '
+        'and the extension is performed either by `extend` or by a pg.Object subclass that '
+        'overrides the field of its base class; specs are used before is_compatible. Ownership '
+        'of results: every value an apply returned is checked not to contain (by identity) a '
+        'mutable object held by a default of the spec, is then changed in place, and the spec '
+        '(rendering, ==, every nested default) must be what its snapshot says; per case '
+        '`envelopes` Dict specs whose fields are default-heavy specs (defaults holding lists/'
+        'dicts inside tuples, Any, Union; frozen/noneable at every level) and pool members, '
+        'optionally inside List/Tuple/Dict, complete a partial input from defaults, after which '
+        'a widened spec (Int->Float, converts in place) is applied to the completed value, the '
+        'spec re-applies it / completes again with a rewriting child_transform, and the value '
+        'is changed directly: after each the snapshot must still hold and the same input must '
+        'complete to the same value. Non-trivial = at least one non-identical compatible pair '
+        'or successful extension whose containment was evaluated on >= 1 accepted value; '
+        'distinct by the rendered pool.')
 REQUIRED_COUNTERS = ['idempotence_checks', 'default_checks', 'spec_unchanged_checks',
                      'compat_true_pairs', 'compat_value_checks', 'extend_ok',
-                     'extend_value_checks', 'extend_compat_checks']
+                     'extend_value_checks', 'extend_compat_checks',
+                     'extend_ok_warmed', 'extend_ok_transform', 'extend_ok_class',
+                     'alias_checks', 'post_op_spec_checks', 'envelope_ops']
 ASSUMPTIONS = [
     'Str specs with a regex take part only in the single-spec laws (compatibility of regexes is documented as unchecked)',
     'a default is acceptable when apply(default, allow_partial=True) succeeds (defaults are applied with allow_partial by the library); non-partial defaults must also pass the strict apply',
@@ -36,6 +53,9 @@ ASSUMPTIONS = [
     'a dict value that omits a field is a don\'t-care when the rejecting spec merely lacks a default for that field (completion by defaults is not part of the claim)',
     'containment of infinite acceptance sets is sampled at parameter-derived boundary values',
     'exceptions TypeError/ValueError/KeyError from apply and extend are rejections/refusals; any other exception is a violation',
+    'a user transform is arbitrary code: a value is judged in the pair laws only when every transform that ran returned its input unchanged, an extension only when extend() itself ran no transform that changed or refused a value, and no transform changes a default at construction; the spec must then behave like the same spec without transforms (the control that decides the `spec-with-transform:` / `after-prior-use:` / `class-inheritance:` prefix of a mechanism)',
+    'in class-inheritance mode acceptance is still decided by apply of the field specs of the two classes; what the class constructors accept is counted, not judged',
+    'a value returned by apply belongs to the caller: changing it in place (directly, through another spec\'s apply, through a child_transform) must not change the spec; symbolic objects inside values are left alone',
 ]
 
 SKIP = object()
